@@ -406,7 +406,7 @@ func Run(r *vk.Run) {
 		go func() {
 			defer wg.Done()
 			for base := range ch {
-				run(r, base) // crash-free
+				r.Guard(base, func() { run(r, base) }) // crash-free
 				// crash variants: each of the first three reap / prod operations cut after write k
 				seenReap, seenProd := 0, 0
 				for pos, op := range base.Ops {
@@ -425,7 +425,8 @@ func Run(r *vk.Run) {
 					for k := 0; k < 40; k++ {
 						c := base
 						c.Ops = append(append(append([]string{}, base.Ops[:pos]...), fmt.Sprintf("%s:%d", kind, k)), base.Ops[pos+1:]...)
-						reached := run(r, c)
+						var reached []bool
+						r.Guard(c, func() { reached = run(r, c) })
 						if len(reached) == 0 || !reached[0] {
 							break
 						}
